@@ -21,7 +21,7 @@ VARIABLES sent,         \* records the sender has written to the pipe
           dest,         \* "-" | "src" (byte-exact copy) | "other"
           ack,          \* "-" | kind in flight | "lost"
           okS, okR,     \* "-" | "ok" | "fail"
-          fault,        \* what the environment did: "-" | "cut" | "corrupt" | "acklost" | ack kind # "good"
+          fault,        \* what the environment did: "-" | "cut" | "corrupt" | "replay" | "acklost" | ack kind # "good"
           last
 vars == <<sent, rcvd, inflight, link, tmp, dest, ack, okS, okR, fault, last>>
 
@@ -39,6 +39,12 @@ Corrupt(i) == /\ fault = "-" /\ i \in 1..Len(inflight) /\ inflight[i] = "ok"
               /\ inflight' = [inflight EXCEPT ![i] = "bad"] /\ fault' = "corrupt"
               /\ last' = <<"Corrupt", rcvd + i>>
               /\ UNCHANGED <<sent, rcvd, link, tmp, dest, ack, okS, okR>>
+\* somebody on the path shows an earlier record of this stream again in place of record rcvd + i (same length, genuine
+\* ciphertext, stale nonce): to the record pipe that is a bad record like any other (C06), to the receiver it must be a failure
+Replay(i) == /\ fault = "-" /\ i \in 1..Len(inflight) /\ inflight[i] = "ok" /\ rcvd + i >= 2
+             /\ inflight' = [inflight EXCEPT ![i] = "bad"] /\ fault' = "replay"
+             /\ last' = <<"Replay", rcvd + i>>
+             /\ UNCHANGED <<sent, rcvd, link, tmp, dest, ack, okS, okR>>
 \* the link is cut: everything in flight is gone (the cut may fall inside a record: that record is gone too)
 Cut == /\ link = "up" /\ fault = "-" /\ okR # "ok"
        /\ link' = "cut" /\ inflight' = <<>> /\ fault' = "cut"
@@ -85,15 +91,15 @@ SenderFails == /\ link = "cut" /\ okS = "-"
                /\ UNCHANGED <<sent, rcvd, inflight, link, tmp, dest, ack, okR, fault>>
 
 Next == SendRecord \/ Cut \/ LoseAck \/ RecvRecord \/ ReceiverFails \/ ReceiverFinishesAfterCut
-        \/ SenderGetsAck \/ SenderFails \/ (\E i \in 1..N : Corrupt(i)) \/ (\E k \in AckKinds : Finish(k))
+        \/ SenderGetsAck \/ SenderFails \/ (\E i \in 1..N : Corrupt(i) \/ Replay(i)) \/ (\E k \in AckKinds : Finish(k))
 Spec == Init /\ [][Next]_vars /\ WF_vars(Next)
 
 \* ---- properties -----------------------------------------------------------------------------------------------
 \* both report success => the destination is byte-for-byte the source
 BothOkExact == (okS = "ok" /\ okR = "ok") => dest = "src"
 \* the stream was cut or corrupted before the receiver had every byte => nobody reports success, no destination
-CutBeforeAllFails == (fault \in {"cut", "corrupt"} /\ rcvd < N /\ okR # "-") => (okR = "fail" /\ dest = "-")
-SenderNeedsGoodAck == okS = "ok" => (okR = "ok" /\ fault \notin {"cut", "corrupt", "acklost", "badhash", "notok"})
+CutBeforeAllFails == (fault \in {"cut", "corrupt", "replay"} /\ rcvd < N /\ okR # "-") => (okR = "fail" /\ dest = "-")
+SenderNeedsGoodAck == okS = "ok" => (okR = "ok" /\ fault \notin {"cut", "corrupt", "replay", "acklost", "badhash", "notok"})
 \* a lost or mismatching acknowledgement => the sender does not report success
 BadAckFails == (fault \in {"acklost", "badhash", "notok"} /\ okS # "-") => okS = "fail"
 DestOnlyWhenComplete == dest # "-" => rcvd = N
